@@ -327,8 +327,24 @@ fn gen_case(seed: u64, i: u64, thorough: bool) -> Vec<String> {
     let mut live: Vec<&str> = Vec::new();
     let n_ops = 2 + r.usize(3);
     for k in 0..n_ops {
-        let choice = if live.is_empty() { 0 } else { r.below(7) };
+        let choice = if live.is_empty() { if i % 5 == 3 && !big { 7 } else { 0 } } else { r.below(9) };
         match choice {
+            7 => {
+                // a genuine pre-0.10 object (unsealed only where the store accepts it: compat mode)
+                let loc = names[r.usize(3)];
+                let kind = if !strict && r.chance(1, 2) { "unsealed" } else { "sealedv1" };
+                ops.push(format!("legacy {loc} {} {} {kind}", size_of(&mut r), r.below(1 << 30)));
+                if !live.contains(&loc) {
+                    live.push(loc);
+                }
+            }
+            8 => {
+                let loc = names[r.usize(3)];
+                ops.push(format!("puta {loc} {} {}", size_of(&mut r), r.below(1 << 30)));
+                if !live.contains(&loc) {
+                    live.push(loc);
+                }
+            }
             0 | 1 => {
                 let loc = names[r.usize(if k == 0 { 1 } else { 3 })];
                 ops.push(format!("put {loc} {} {}", size_of(&mut r), r.below(1 << 30)));
